@@ -5,6 +5,7 @@ use crate::{
 };
 use reactive_graph::{
     owner::Storage,
+    signal::guards::WriteGuard,
     traits::{
         DefinedAt, IsDisposed, Notify, ReadUntracked, Track, UntrackableGuard,
         Write,
@@ -136,7 +137,21 @@ where
             trigger: value.get_trigger(value.path().into_iter().collect()),
             get_trigger: Arc::new(move |path| value.get_trigger(path)),
             read: Arc::new(move || value.reader().map(StoreFieldReader::new)),
-            write: Arc::new(move || value.writer().map(StoreFieldWriter::new)),
+            write: Arc::new(move || {
+                // what `Store::try_write` notifies: `children`, then `this` and
+                // `children` of the store (one guard, so that `untrack()` silences all of it)
+                let mut writer = value.writer()?;
+                writer.untrack();
+                let trigger = value.get_trigger(Default::default());
+                Some(StoreFieldWriter::new(WriteGuard::new(
+                    vec![
+                        trigger.children.clone(),
+                        trigger.this,
+                        trigger.children,
+                    ],
+                    writer,
+                )))
+            }),
             keys: Arc::new(move || value.keys()),
             track_field: Arc::new(move || value.track_field()),
         }
@@ -164,7 +179,20 @@ where
             }),
             write: Arc::new({
                 let value = value.clone();
-                move || value.writer().map(StoreFieldWriter::new)
+                move || {
+                    // what `ArcStore::try_write` notifies (see `From<Store>` above)
+                    let mut writer = value.writer()?;
+                    writer.untrack();
+                    let trigger = value.get_trigger(Default::default());
+                    Some(StoreFieldWriter::new(WriteGuard::new(
+                        vec![
+                            trigger.children.clone(),
+                            trigger.this,
+                            trigger.children,
+                        ],
+                        writer,
+                    )))
+                }
             }),
             keys: Arc::new({
                 let value = value.clone();
